@@ -109,9 +109,9 @@ func init() {
 		return StrVal{Arr: s.Arr, Off: s.Off, Len: o.Ite(has, o.Sub(s.Len, o.Int(k)), s.Len)}
 	}
 	extSchemas["strings.ToLower"] = func(x *Exec, st *State, fn *ssa.Function, args []Val, c *ssa.CallCommon) Val {
-		// The lowered string is only ever compared with ASCII literals: ToLower(s) == lit  iff  s equals lit ignoring
-		// ASCII case (true for literals of lower-case ASCII letters other than k and s, whose Unicode case orbits are
-		// larger). The result is an opaque string remembered as "the lowering of s".
+		// The lowered string is only ever compared with lower-case ASCII literals; seqEq models that comparison exactly
+		// (ASCII case plus the two non-ASCII runes that lower to ASCII letters). The result is an opaque string
+		// remembered as "the lowering of s".
 		o := x.o
 		s := args[0].(StrVal)
 		seq := x.callSeq
@@ -215,6 +215,9 @@ func schemaErrorf(x *Exec, st *State, fn *ssa.Function, args []Val, c *ssa.CallC
 			}
 			for k, t := range inner.As {
 				ev.As[k] = o.Or(orFalse(o, ev.As[k]), o.And(o.Not(inner.Nil), t))
+			}
+			if og, ok := inner.Data["origin"]; ok {
+				ev.Data["origin"] = o.Ite(inner.Nil, o.ConstI(tyInt, -1), og) // where the wrapped error came from
 			}
 		}
 	}
@@ -657,8 +660,18 @@ func (x *Exec) parseUintTerms(s StrVal) (*Term, *Term) {
 		}
 		x.assume(o.Implies(o.And(valid, canon), o.And(eqs...)))
 		x.trusted["strconv: ParseUint(FormatUint(v)) == v and FormatUint(ParseUint(s)) == s for canonical s (round-trip axiom)"] = true
+		// the outcome depends on the content only: texts with equal bytes parse alike
+		for _, p := range x.puApps {
+			x.assumeClosed(o.Implies(x.seqEq(p.s, s), o.And(o.Eq(p.ok, valid), o.Eq(p.val, val))))
+		}
+		x.puApps = append(x.puApps, puApp{s, valid, val})
 	}
 	return valid, val
+}
+
+type puApp struct {
+	s       StrVal
+	ok, val *Term
 }
 
 // strconv.ParseUint(s, 10, 64)
@@ -683,6 +696,7 @@ func schemaParseUint(x *Exec, st *State, fn *ssa.Function, args []Val, c *ssa.Ca
 		ue.As[k] = o.False()
 	}
 	ue.Nil = o.False()
+	ue.Data["origin"] = o.ConstI(tyInt, 2) // a strconv error
 	okErr := ErrVal{Nil: o.True(), Is: map[string]*Term{}, As: map[string]*Term{}, Data: map[string]*Term{}}
 	good, val := x.parseUintTerms(s)
 	uv := o.TypedFresh(fmt.Sprintf("parseuint%d.v", seq), tyUint64)
